@@ -689,11 +689,38 @@ class _Tx(ast.NodeTransformer):
             return ast.copy_location(ast.Call(ast.Name('__sym_getitem__', ast.Load()), [n.value, n.slice], []), n)
         return n
 
+    def visit_Compare(self, n):
+        self.generic_visit(n)
+        if len(n.ops) == 1 and isinstance(n.ops[0], (ast.In, ast.NotIn)):
+            call = ast.Call(ast.Name('__sym_in__', ast.Load()), [n.left, n.comparators[0]], [])
+            if isinstance(n.ops[0], ast.NotIn):
+                call = ast.Call(ast.Name('__sym_not__', ast.Load()), [call], [])
+            return ast.copy_location(call, n)
+        return n
+
     def visit_BinOp(self, n):
         self.generic_visit(n)
         if isinstance(n.op, ast.Mod) and isinstance(n.left, ast.Constant) and isinstance(n.left.value, str):
             return ast.copy_location(ast.Call(ast.Name('__sym_fmt__', ast.Load()), [n.left, n.right], []), n)
         return n
+
+
+def sym_in(x, c):
+    """x in c  as ONE condition (instead of one fork per element)"""
+    if isinstance(x, (SymInt, SymBool)):
+        x = lift(x)
+        if isinstance(c, range):
+            if c.step == 1: return core.band(x >= c.start, x < c.stop)
+            if c.step > 0: return core.band(x >= c.start, x < c.stop, core.eq((x - c.start) % c.step, 0))
+        if isinstance(c, (tuple, list, set, frozenset)) and all(isinstance(e, int) or e is None for e in c):
+            r = [core.eq(x, e) for e in c if e is not None]
+            return core.bor(*r) if r else False
+    return x in c
+
+
+def sym_not(b):
+    if isinstance(b, SymBool): return bnot(b)
+    return not b
 
 
 def instrument_source(src, path):
@@ -720,7 +747,7 @@ class _Finder(importlib.abc.MetaPathFinder, importlib.abc.Loader):
         mod.__file__ = p
         src = open(p).read()
         if self.instrument:
-            mod.__dict__.update(__sym_call__=sym_call, __sym_getitem__=sym_getitem, __sym_fmt__=sym_fmt)
+            mod.__dict__.update(__sym_call__=sym_call, __sym_getitem__=sym_getitem, __sym_fmt__=sym_fmt, __sym_in__=sym_in, __sym_not__=sym_not)
             code = instrument_source(src, p)
         else:
             code = compile(src, p, 'exec')
@@ -757,3 +784,37 @@ def functions_in(*mods):
                 for kk, vv in vars(v).items():
                     if isinstance(vv, (types.FunctionType, property, staticmethod, classmethod)): out.append('%s.%s.%s' % (m.__name__, k, kk))
     return out
+
+
+# --------------------------------------------------------------------------- file proxy (io.BytesIO semantics)
+class SymFile:
+    def __init__(self, items=()):
+        self.items = list(items); self.pos = 0; self.closed = False
+
+    def read(self, n=-1):
+        if isinstance(n, SymInt): n = n.__index__()
+        if n is None or n < 0: n = len(self.items) - self.pos
+        out = self.items[self.pos:self.pos + n] if self.pos < len(self.items) else []
+        self.pos += len(out)
+        return SymBuf(out, 'bytes', 'B')
+
+    def seek(self, off, whence=0):
+        if isinstance(off, SymInt): off = off.__index__()
+        if whence == 0:
+            if off < 0: raise ValueError('negative seek value %d' % off)
+            self.pos = off
+        elif whence == 1: self.pos = max(0, self.pos + off)
+        else: self.pos = max(0, len(self.items) + off)
+        return self.pos
+
+    def tell(self): return self.pos
+
+    def write(self, data):
+        raw = _raw_items(data)
+        if self.pos > len(self.items): self.items += [0] * (self.pos - len(self.items))
+        self.items[self.pos:self.pos + len(raw)] = raw
+        self.pos += len(raw)
+        return len(raw)
+
+    def flush(self): pass
+    def close(self): self.closed = True
